@@ -171,6 +171,18 @@ CLAIMS = {
         "here: blimpy's mapping of a frequency window to channels, the written files of split_fil, the final ndarray packaging - bounded native runs.",
    note="level 'other': the per-piece data/frequency clause goes through blimpy (external); the contract side proves the requests and counts, the bounded side the files",
    technique="contract-based deductive verification (loop invariants incl. nested loops with break, ghost row/column maps, extracted predicates); bounded native runs on written files"),
+ 'C03': dict(cat='other', ref='DESIGN.md 2/C03',
+   text="Decided on the in-session equivalent of the file (Frame.get_waterfall(), an observation point of the property): for every frame and every "
+        "prior Waterfall state (none / inherited from a parent or loaded, with arbitrary stale container attributes) _update_waterfall leaves a "
+        "Waterfall whose data are the frame's intensities in file channel order (flipped for descending), whose header has nchans/fch1/foff sign/"
+        "tsamp/tstart of the frame, and whose container shapes, channel counts, index and frequency limits describe exactly this frame (frame "
+        "condition: nothing stale survives). A frame built from that Waterfall has the same shape, intensities, frequency axis, resolutions, "
+        "start time, orientation and source name (round-trip lemma over the two contracts). get_fs/get_ts/get_data return axes of exactly "
+        "nchans / integration-count entries = fch1+i*foff, i*tsamp - also in the floating-point rounding model, i.e. for every header value. "
+        "NOT decidable by a contract here: what blimpy writes to and reads from disk (external library; its assumed contract is that files carry "
+        "header + container-described data) - bounded native round trips over 13 construction routes x 2 formats with blimpy as independent reader.",
+   note="level 'other': the file itself is produced and parsed by blimpy; the contract side proves what setigen hands over and reads back",
+   technique="contract-based deductive verification (postcondition + frame condition over arbitrary prior state, composition lemma, fp-relerr mode for axis lengths); bounded native file round trips"),
 }
 NA_REASON = "not yet built in this session (see DESIGN.md build order)"
 
